@@ -142,9 +142,6 @@ func (g *gen) fieldArith(pk string, m *big.Int) {
 	g.add("%s.batchinv [0,0,0]", pk)
 	g.add("%s.one", pk)
 	g.add("%s.modulus", pk)
-	if pk == "ff" {
-		g.add("ffraw.backend")
-	}
 	// construction from any 64-bit integer
 	u64 := []*big.Int{small(0), small(1), sub(GP, small(1)), GP, add(GP, small(1)), sub(pow2(64), small(1)), pow2(63), pow2(32), sub(pow2(32), small(1)), sub(GP, pow2(32))}
 	for _, v := range u64 {
